@@ -1217,4 +1217,642 @@ theorem mergeOne_spec (nCh nS : Nat) (old : List Peak) (q : Peak) (e : Int)
   · simp at h
 
 
+
+/-! ## replace_merged -/
+
+theorem replaceLoop_cons (o : Row) (os : List Row) (i : Nat) (win : Option (Nat × Nat))
+    (pend : List (Row × (Nat × Nat))) (acc : List Row) :
+    replaceLoop (o :: os) i win pend acc =
+      replaceLoop os (i+1) (insertStep i win pend acc).1 (insertStep i win pend acc).2.1
+        (if keepRow i (insertStep i win pend acc).1 then o :: (insertStep i win pend acc).2.2 else (insertStep i win pend acc).2.2) := by
+  rw [replaceLoop]
+
+theorem replaceLoop_none : ∀ (os : List Row) (i : Nat) (acc : List Row),
+    replaceLoop os i none [] acc = (acc.reverse ++ os, none, []) := by
+  intro os
+  induction os with
+  | nil => intro i acc; simp [replaceLoop]
+  | cons o os ih => intro i acc; rw [replaceLoop_cons]; simp [insertStep, keepRow, ih]
+
+/-- walking through the rows before the end of the current window: rows before `s` are copied, rows in `[s, e)` skipped -/
+theorem replaceLoop_within (s e : Nat) (m : Row) (rest : List (Row × (Nat × Nat))) :
+    ∀ (A B : List Row) (i : Nat) (acc : List Row), i + A.length ≤ e →
+      replaceLoop (A ++ B) i (some (s, e)) ((m, (s, e)) :: rest) acc
+        = replaceLoop B (i + A.length) (some (s, e)) ((m, (s, e)) :: rest) ((A.take (s - i)).reverse ++ acc) := by
+  intro A
+  induction A with
+  | nil => intro B i acc _; simp
+  | cons a A ih =>
+    intro B i acc h
+    simp only [List.length_cons] at h
+    have hne : i ≠ e := by omega
+    have e3 : i + 1 + A.length = i + (A.length + 1) := by omega
+    simp only [List.cons_append, List.length_cons]
+    rw [replaceLoop_cons]
+    simp only [insertStep, hne, if_false, keepRow]
+    by_cases hs : i < s
+    · simp only [hs, decide_true, if_true]
+      rw [ih B (i+1) (a :: acc) (by omega)]
+      have e1 : s - i = (s - (i+1)) + 1 := by omega
+      rw [e1, e3]
+      simp only [List.take_succ_cons, List.reverse_cons, List.append_assoc, List.singleton_append]
+    · simp only [hs, decide_false, if_false, Bool.false_eq_true]
+      rw [ih B (i+1) acc (by omega)]
+      have e1 : s - i = 0 := by omega
+      have e2 : s - (i+1) = 0 := by omega
+      simp [e1, e2, e3]
+
+
+/-- well-formed skip windows: non-empty, inside the array, in order and not overlapping -/
+def WindowsOk (n : Nat) : Nat → List (Row × (Nat × Nat)) → Prop
+  | _, [] => True
+  | lo, (_, (s, e)) :: rest => lo ≤ s ∧ s < e ∧ e ≤ n ∧ WindowsOk n e rest
+
+theorem replaceSpec_shift (orig : List Row) (e : Nat) (rest : List (Row × (Nat × Nat)))
+    (h : ∀ m s e' r, rest = (m, (s, e')) :: r → s = e) :
+    replaceSpec orig (e+1) rest = replaceSpec orig e rest ∨ rest = [] := by
+  cases rest with
+  | nil => exact Or.inr rfl
+  | cons x r =>
+    obtain ⟨m, s, e'⟩ := x
+    have := h m s e' r rfl
+    subst this
+    left
+    simp [replaceSpec, slice]
+
+theorem replaceLoop_spec (orig : List Row) :
+    ∀ (rest : List (Row × (Nat × Nat))) (m : Row) (s e i : Nat) (acc : List Row),
+      i ≤ e → s < e → e ≤ orig.length → WindowsOk orig.length e rest →
+      ((replaceLoop (orig.drop i) i (some (s, e)) ((m, (s, e)) :: rest) acc).2.1 = none ∧
+       (replaceLoop (orig.drop i) i (some (s, e)) ((m, (s, e)) :: rest) acc).2.2 = [] ∧
+       (replaceLoop (orig.drop i) i (some (s, e)) ((m, (s, e)) :: rest) acc).1
+          = acc.reverse ++ replaceSpec orig i ((m, (s, e)) :: rest)) ∨
+      (∃ m' s', (replaceLoop (orig.drop i) i (some (s, e)) ((m, (s, e)) :: rest) acc).2.1 = some (s', orig.length) ∧
+       (replaceLoop (orig.drop i) i (some (s, e)) ((m, (s, e)) :: rest) acc).2.2 = [(m', (s', orig.length))] ∧
+       (replaceLoop (orig.drop i) i (some (s, e)) ((m, (s, e)) :: rest) acc).1 ++ [m']
+          = acc.reverse ++ replaceSpec orig i ((m, (s, e)) :: rest)) := by
+  intro rest
+  induction rest with
+  | nil =>
+    intro m s e i acc hie hse hen _
+    have hsplit : orig.drop i = (orig.drop i).take (e - i) ++ orig.drop e := by
+      conv => lhs; rw [← List.take_append_drop (e - i) (orig.drop i)]
+      simp only [List.drop_drop]; congr 2; omega
+    have hlen : ((orig.drop i).take (e - i)).length = e - i := by simp; omega
+    have hA : ((orig.drop i).take (e - i)).take (s - i) = slice orig i s := by
+      unfold slice; rw [List.take_take]; congr 1; omega
+    rw [hsplit, replaceLoop_within s e m [] _ _ i acc (by omega), hlen, hA]
+    have hie' : i + (e - i) = e := by omega
+    rw [hie']
+    by_cases hlast : e = orig.length
+    · right
+      refine ⟨m, s, ?_⟩
+      have : orig.drop e = [] := by rw [hlast]; simp
+      rw [this]
+      simp [replaceLoop, hlast, replaceSpec]
+    · left
+      have hlt : e < orig.length := by omega
+      rw [List.drop_eq_getElem_cons hlt, replaceLoop_cons]
+      simp [insertStep, keepRow, replaceLoop_none, replaceSpec]
+  | cons x rest ih =>
+    obtain ⟨m2, s2, e2⟩ := x
+    intro m s e i acc hie hse hen hw
+    obtain ⟨w1, w2, w3, w4⟩ := hw
+    have hsplit : orig.drop i = (orig.drop i).take (e - i) ++ orig.drop e := by
+      conv => lhs; rw [← List.take_append_drop (e - i) (orig.drop i)]
+      simp only [List.drop_drop]; congr 2; omega
+    have hlen : ((orig.drop i).take (e - i)).length = e - i := by simp; omega
+    have hA : ((orig.drop i).take (e - i)).take (s - i) = slice orig i s := by
+      unfold slice; rw [List.take_take]; congr 1; omega
+    rw [hsplit, replaceLoop_within s e m _ _ _ i acc (by omega), hlen, hA]
+    have hie' : i + (e - i) = e := by omega
+    rw [hie']
+    have hlt : e < orig.length := by omega
+    rw [List.drop_eq_getElem_cons hlt, replaceLoop_cons]
+    simp only [insertStep, if_true, keepRow]
+    by_cases hes : e < s2
+    · simp only [hes, decide_true, if_true]
+      have := ih m2 s2 e2 (e+1) (orig[e] :: m :: ((slice orig i s).reverse ++ acc)) (by omega) w2 w3 w4
+      have hsl : slice orig e s2 = orig[e] :: slice orig (e+1) s2 := by
+        simp only [slice]
+        rw [List.drop_eq_getElem_cons hlt]
+        have : s2 - e = (s2 - (e+1)) + 1 := by omega
+        rw [this, List.take_succ_cons]
+      rcases this with ⟨h1, h2, h3⟩ | ⟨m', s', h1, h2, h3⟩
+      · left; refine ⟨h1, h2, ?_⟩
+        rw [h3]; simp [replaceSpec, hsl]
+      · right; refine ⟨m', s', h1, h2, ?_⟩
+        rw [h3]; simp [replaceSpec, hsl]
+    · have hes2 : s2 = e := by omega
+      subst hes2
+      simp only [Nat.lt_irrefl, decide_false, if_false, Bool.false_eq_true]
+      have := ih m2 s2 e2 (s2+1) (m :: ((slice orig i s).reverse ++ acc)) (by omega) w2 w3 w4
+      have hsp : replaceSpec orig (s2+1) ((m2, (s2, e2)) :: rest) = replaceSpec orig s2 ((m2, (s2, e2)) :: rest) := by
+        simp [replaceSpec, slice]
+      rcases this with ⟨h1, h2, h3⟩ | ⟨m', s', h1, h2, h3⟩
+      · left; refine ⟨h1, h2, ?_⟩
+        rw [h3, hsp]; simp [replaceSpec]
+      · right; refine ⟨m', s', h1, h2, ?_⟩
+        rw [h3, hsp]; simp [replaceSpec]
+
+
+/-- `_replace_merged` with well-formed windows returns the defining interleaving
+`orig[0:s0] ++ [m0] ++ orig[e0:s1] ++ [m1] ++ … ++ orig[e_last:]` -/
+theorem replaceMergedCore_spec (orig merge : List Row) (windows : List (Nat × Nat)) (res : List Row)
+    (hw : WindowsOk orig.length 0 (merge.zip windows))
+    (h : replaceMergedCore orig merge windows = .ok res) :
+    res = replaceSpec orig 0 (merge.zip windows) := by
+  unfold replaceMergedCore at h
+  split at h
+  · simp at h
+  · rename_i m0 w0 pend' hz
+    obtain ⟨s0, e0⟩ := w0
+    rw [hz] at hw ⊢
+    obtain ⟨_, w2, w3, w4⟩ := hw
+    have hspec := replaceLoop_spec orig pend' m0 s0 e0 0 [] (Nat.zero_le _) w2 w3 w4
+    simp only [List.drop_zero, List.reverse_nil, List.nil_append] at hspec
+    simp only [] at h
+    rcases hspec with ⟨h1, h2, h3⟩ | ⟨m', s', h1, h2, h3⟩
+    · generalize hr : replaceLoop orig 0 (some (s0, e0)) ((m0, s0, e0) :: pend') [] = r at h h1 h2 h3
+      obtain ⟨r1, r2, r3⟩ := r
+      simp only [] at h1 h2 h3
+      subst h1 h2
+      simp only [] at h
+      split at h
+      · simp at h
+      · simp only [Except.ok.injEq] at h; rw [← h, h3]
+    · generalize hr : replaceLoop orig 0 (some (s0, e0)) ((m0, s0, e0) :: pend') [] = r at h h1 h2 h3
+      obtain ⟨r1, r2, r3⟩ := r
+      simp only [] at h1 h2 h3
+      subst h1 h2
+      simp only [if_true] at h
+      split at h
+      · simp at h
+      · split at h
+        · simp at h
+        · simp only [Except.ok.injEq] at h; rw [← h, h3]
+
+
+
+/-! ## index_of_fraction -/
+
+theorem filterMap_congr' {α β} (f g : α → Option β) (l : List α) (h : ∀ x ∈ l, f x = g x) :
+    l.filterMap f = l.filterMap g := by
+  induction l with
+  | nil => rfl
+  | cons a l ih => simp [List.filterMap_cons, h a (by simp), ih (fun x hx => h x (by simp [hx]))]
+
+theorem reach_cond (seen x A f : Rat) (hA : 0 < A) : (seen + x / A ≥ f) ↔ (seen * A + x ≥ f * A) := by
+  have e : (seen + x / A) * A = seen * A + x := by grind
+  constructor
+  · intro h
+    have := Rat.mul_le_mul_of_nonneg_right h (Rat.le_of_lt hA)
+    rw [e] at this; exact this
+  · intro h
+    rw [← e] at h
+    exact Rat.le_of_mul_le_mul_right h hA
+
+/-- `reachIndex` for one more sample in front -/
+theorem reachIndex_cons (A f x : Rat) (xs : List Rat) (i : Nat) (cum : Rat) :
+    reachIndex A f (x :: xs) i cum =
+      if cum + x ≥ f * A then some (if x ≠ 0 then (i : Rat) + (f * A - cum) / x else (i : Rat))
+      else reachIndex A f xs (i+1) (cum + x) := by
+  rw [reachIndex]
+
+/-- the `while` loop for one sample serves exactly the open fractions reached in this sample (a prefix of the
+ascending list), with the interpolation formula of `reachIndex` -/
+theorem iofInner_spec (A x : Rat) (i : Nat) (seen : Rat) (xs : List Rat) (hA : 0 < A) :
+    ∀ (rem : List Rat), rem.Pairwise (· ≤ ·) →
+      rem.filterMap (fun f => reachIndex A f (x :: xs) i (seen * A))
+        = (iofInner A x i seen rem).1 ++ (iofInner A x i seen rem).2.filterMap (fun f => reachIndex A f xs (i+1) ((seen + x / A) * A)) ∧
+      rem.filter (fun f => (reachIndex A f (x :: xs) i (seen * A)).isNone)
+        = (iofInner A x i seen rem).2.filter (fun f => (reachIndex A f xs (i+1) ((seen + x / A) * A)).isNone) ∧
+      (iofInner A x i seen rem).2.Pairwise (· ≤ ·) := by
+  have e : (seen + x / A) * A = seen * A + x := by grind
+  intro rem
+  induction rem with
+  | nil => intro _; simp [iofInner]
+  | cons f rest ih =>
+    intro hs
+    have hs' := (List.pairwise_cons.mp hs)
+    obtain ⟨ih1, ih2, ih3⟩ := ih hs'.2
+    unfold iofInner
+    by_cases hc : seen + x / A ≥ f
+    · have hc' := (reach_cond seen x A f hA).mp hc
+      simp only [hc, if_true]
+      refine ⟨?_, ?_, ih3⟩
+      · rw [List.filterMap_cons, reachIndex_cons]
+        simp only [hc', if_true, ih1, List.cons_append]
+        congr 1
+        by_cases hx : x = 0
+        · simp [hx]
+        · simp only [hx, ne_eq, not_false_eq_true, if_true]; congr 1; grind
+      · rw [List.filter_cons, reachIndex_cons]
+        simp only [hc', if_true, Option.isNone_some, ih2, Bool.false_eq_true, if_false]
+    · simp only [hc, if_false]
+      have hnot : ∀ g ∈ f :: rest, ¬ (seen * A + x ≥ g * A) := by
+        intro g hg hge
+        have hg' := (reach_cond seen x A g hA).mpr hge
+        rcases List.mem_cons.mp hg with rfl | hg
+        · exact hc hg'
+        · exact hc (Rat.le_trans (hs'.1 g hg) hg')
+      refine ⟨?_, ?_, hs⟩
+      · simp only [List.nil_append]
+        apply filterMap_congr'
+        intro g hg
+        rw [reachIndex_cons, e]
+        simp [hnot g hg]
+      · apply List.filter_congr
+        intro g hg
+        rw [reachIndex_cons, e]
+        simp [hnot g hg]
+
+
+/-- the sample loop: for ascending fractions the results are, in order, the `reachIndex` of every fraction that
+is reached at all; the fractions never reached stay open -/
+theorem iofLoop_spec (A : Rat) (hA : 0 < A) :
+    ∀ (xs : List Rat) (i : Nat) (seen : Rat) (rem : List Rat), rem.Pairwise (· ≤ ·) →
+      (iofLoop A xs i seen rem).1 = rem.filterMap (fun f => reachIndex A f xs i (seen * A)) ∧
+      (iofLoop A xs i seen rem).2 = rem.filter (fun f => (reachIndex A f xs i (seen * A)).isNone) := by
+  intro xs
+  induction xs with
+  | nil =>
+    intro i seen rem _
+    simp only [iofLoop, reachIndex, Option.isNone_none]
+    refine ⟨?_, (List.filter_eq_self.mpr (by simp)).symm⟩
+    induction rem with
+    | nil => rfl
+    | cons a l ih => simp [List.filterMap_cons]
+  | cons x xs ih =>
+    intro i seen rem hs
+    obtain ⟨h1, h2, h3⟩ := iofInner_spec A x i seen xs hA rem hs
+    rw [iofLoop]
+    simp only []
+    generalize hin : iofInner A x i seen rem = r at h1 h2 h3
+    obtain ⟨rs, rem'⟩ := r
+    simp only [] at h1 h2 h3 ⊢
+    by_cases he : rem'.isEmpty
+    · have : rem' = [] := by simpa using he
+      subst this
+      simp only [List.isEmpty_nil, if_true]
+      simp at h1 h2
+      exact ⟨by rw [h1], by simpa using h2⟩
+    · simp only [he, if_false, Bool.false_eq_true]
+      obtain ⟨g1, g2⟩ := ih (i+1) (seen + x / A) rem' h3
+      generalize hl : iofLoop A xs (i+1) (seen + x / A) rem' = r2 at g1 g2
+      obtain ⟨rs', rem''⟩ := r2
+      simp only [] at g1 g2 ⊢
+      exact ⟨by rw [h1, g1], by rw [h2, g2]⟩
+
+
+/-- `reachIndex` is the first crossing of the cumulated area through `f·A`, linearly interpolated inside the
+crossing sample: no earlier sample reaches the level, sample `k` does, and
+`cum(k) + (r − k)·x_k = f·A` -/
+theorem reachIndex_spec (A f : Rat) :
+    ∀ (xs : List Rat) (i : Nat) (cum r : Rat), reachIndex A f xs i cum = some r →
+      ∃ k, k < xs.length ∧ (∀ j < k, cum + (xs.take (j+1)).sum < f * A) ∧ cum + (xs.take (k+1)).sum ≥ f * A ∧
+        (xs.getD k 0 ≠ 0 → (r - ((i + k : Nat) : Rat)) * xs.getD k 0 = f * A - (cum + (xs.take k).sum)) ∧
+        (xs.getD k 0 = 0 → r = ((i + k : Nat) : Rat)) := by
+  intro xs
+  induction xs with
+  | nil => intro i cum r h; simp [reachIndex] at h
+  | cons x xs ih =>
+    intro i cum r h
+    rw [reachIndex_cons] at h
+    by_cases hc : cum + x ≥ f * A
+    · simp only [hc, if_true, Option.some.injEq] at h
+      refine ⟨0, by simp, by simp, by simpa [Rat.add_zero] using hc, ?_, ?_⟩
+      · intro hx
+        simp only [List.getD_cons_zero] at hx
+        simp only [hx, ne_eq, not_false_eq_true, if_true] at h
+        subst h
+        simp [Rat.add_zero]; grind
+      · intro hx
+        simp only [List.getD_cons_zero] at hx
+        simp [hx] at h
+        simp [← h]
+    · simp only [hc, if_false] at h
+      obtain ⟨k, h1, h2, h3, h4, h5⟩ := ih (i+1) (cum + x) r h
+      refine ⟨k+1, by simp; omega, ?_, ?_, ?_, ?_⟩
+      · intro j hj
+        cases j with
+        | zero => simp [Rat.add_zero]; exact Rat.not_le.mp hc
+        | succ j =>
+          have := h2 j (by omega)
+          simp only [List.take_succ_cons, List.sum_cons]
+          grind
+      · simp only [List.take_succ_cons, List.sum_cons]; grind
+      · intro hx
+        simp only [List.getD_cons_succ] at hx ⊢
+        have := h4 hx
+        have e : ((i + (k + 1) : Nat) : Rat) = ((i + 1 + k : Nat) : Rat) := by congr 1; omega
+        rw [e]; simp only [List.take_succ_cons, List.sum_cons]; grind
+      · intro hx
+        simp only [List.getD_cons_succ] at hx
+        have := h5 hx
+        have e : ((i + (k + 1) : Nat) : Rat) = ((i + 1 + k : Nat) : Rat) := by congr 1; omega
+        rw [e]; exact this
+
+
+
+/-! ## highest_density_region -/
+
+/-- strictly ascending -/
+def StrictAsc : List Nat → Prop
+  | a :: b :: rest => a < b ∧ StrictAsc (b :: rest)
+  | _ => True
+
+/-- the indices covered by a list of half-open runs -/
+def runIndices (runs : List (Nat × Nat)) : List Nat := runs.flatMap fun r => List.range' r.1 (r.2 - r.1)
+
+/-- runs are non-empty and separated by at least one missing index (i.e. they are maximal) -/
+def RunsSeparated : List (Nat × Nat) → Prop
+  | (s, e) :: (s', e') :: rest => s < e ∧ e < s' ∧ RunsSeparated ((s', e') :: rest)
+  | [(s, e)] => s < e
+  | [] => True
+
+theorem runsSeparated_head {s e : Nat} {more : List (Nat × Nat)} (h : RunsSeparated ((s, e) :: more)) : s < e := by
+  cases more with
+  | nil => exact h
+  | cons x xs => obtain ⟨s', e'⟩ := x; exact h.1
+
+/-- `runsOf` of a strictly ascending index list: the runs cover exactly the indices, are non-empty and maximal,
+and the first run starts at the first index -/
+theorem runsOf_spec : ∀ (ind : List Nat), StrictAsc ind →
+    runIndices (runsOf ind) = ind ∧ RunsSeparated (runsOf ind) ∧
+    (∀ i rest, ind = i :: rest → ∃ e more, runsOf ind = (i, e) :: more) := by
+  intro ind
+  induction ind with
+  | nil => intro _; simp [runsOf, runIndices, RunsSeparated]
+  | cons i rest ih =>
+    intro hasc
+    have hrest : StrictAsc rest := by
+      cases rest with
+      | nil => trivial
+      | cons j r => exact hasc.2
+    obtain ⟨h1, h2, h3⟩ := ih hrest
+    cases hR : runsOf rest with
+    | nil =>
+      have : rest = [] := by
+        cases rest with
+        | nil => rfl
+        | cons j r => obtain ⟨e, more, he⟩ := h3 j r rfl; rw [he] at hR; cases hR
+      subst this
+      simp [runsOf, runIndices, RunsSeparated]
+    | cons x more =>
+      obtain ⟨s, e⟩ := x
+      rw [hR] at h1 h2
+      have hse := runsSeparated_head h2
+      obtain ⟨j, r, hj⟩ : ∃ j r, rest = j :: r := by
+        cases rest with
+        | nil => simp [runsOf] at hR
+        | cons j r => exact ⟨j, r, rfl⟩
+      obtain ⟨e', more', he'⟩ := h3 j r hj
+      rw [hR] at he'
+      simp only [List.cons.injEq, Prod.mk.injEq] at he'
+      have hsj : s = j := he'.1.1
+      have hij : i < j := by rw [hj] at hasc; exact hasc.1
+      simp only [runsOf, hR]
+      by_cases hs : s = i + 1
+      · simp only [hs, if_true]
+        refine ⟨?_, ?_, fun i' rest' h => ⟨e, more, by simp only [List.cons.injEq] at h; rw [h.1]⟩⟩
+        · rw [← h1]
+          simp only [runIndices, List.flatMap_cons]
+          have : e - i = (e - (i+1)) + 1 := by omega
+          rw [this, List.range'_succ, hs]; simp
+        · cases more with
+          | nil => simp only [RunsSeparated] at h2 ⊢; omega
+          | cons y ys =>
+            obtain ⟨s2, e2⟩ := y
+            simp only [RunsSeparated] at h2 ⊢
+            exact ⟨by omega, h2.2.1, h2.2.2⟩
+      · simp only [hs, if_false]
+        refine ⟨?_, ?_, fun i' rest' h => ⟨i+1, (s, e) :: more, by simp only [List.cons.injEq] at h; rw [h.1]⟩⟩
+        · rw [← h1]
+          simp [runIndices, List.flatMap_cons]
+        · simp only [RunsSeparated]
+          exact ⟨by omega, by omega, h2⟩
+
+
+theorem insertNat_perm (i : Nat) (l : List Nat) : (insertNat i l).Perm (i :: l) := by
+  induction l with
+  | nil => exact List.Perm.refl _
+  | cons j js ih =>
+    simp only [insertNat]
+    split
+    · exact List.Perm.refl _
+    · exact (List.Perm.cons j ih).trans (List.Perm.swap i j js)
+
+theorem insertNat_sorted (i : Nat) (l : List Nat) (h : l.Pairwise (· ≤ ·)) : (insertNat i l).Pairwise (· ≤ ·) := by
+  induction l with
+  | nil => simp [insertNat]
+  | cons j js ih =>
+    simp only [insertNat]
+    have hj := List.pairwise_cons.mp h
+    split
+    · rename_i hij
+      refine List.Pairwise.cons ?_ h
+      intro x hx
+      rcases List.mem_cons.mp hx with rfl | hx
+      · exact hij
+      · exact Nat.le_trans hij (hj.1 x hx)
+    · rename_i hij
+      refine List.Pairwise.cons ?_ (ih hj.2)
+      intro x hx
+      have := (insertNat_perm i js).mem_iff.mp hx
+      rcases List.mem_cons.mp this with rfl | hx'
+      · omega
+      · exact hj.1 x hx'
+
+theorem sortNat_spec (l : List Nat) : (sortNat l).Perm l ∧ (sortNat l).Pairwise (· ≤ ·) := by
+  unfold sortNat
+  have : ∀ (l acc : List Nat), acc.Pairwise (· ≤ ·) →
+      (l.foldl (fun acc i => insertNat i acc) acc).Perm (l ++ acc) ∧ (l.foldl (fun acc i => insertNat i acc) acc).Pairwise (· ≤ ·) := by
+    intro l
+    induction l with
+    | nil => intro acc h; exact ⟨List.Perm.refl _, h⟩
+    | cons x xs ih =>
+      intro acc h
+      simp only [List.foldl_cons]
+      obtain ⟨p, q⟩ := ih (insertNat x acc) (insertNat_sorted x acc h)
+      refine ⟨p.trans ?_, q⟩
+      have := insertNat_perm x acc
+      exact (List.Perm.append_left xs this).trans (by simp [List.perm_middle])
+  simpa using this l [] List.Pairwise.nil
+
+theorem strictAsc_of_sorted_nodup : ∀ (l : List Nat), l.Pairwise (· ≤ ·) → l.Nodup → StrictAsc l
+  | [], _, _ => trivial
+  | [_], _, _ => trivial
+  | a :: b :: rest, hs, hn => by
+    have h1 := List.pairwise_cons.mp hs
+    have h2 := List.nodup_cons.mp hn
+    refine ⟨?_, strictAsc_of_sorted_nodup (b :: rest) h1.2 h2.2⟩
+    have : a ≤ b := h1.1 b (by simp)
+    have : a ≠ b := fun e => h2.1 (by simp [e])
+    omega
+
+
+theorem insertByVal_perm (data : List Rat) (i : Nat) (l : List Nat) : (insertByVal data i l).Perm (i :: l) := by
+  induction l with
+  | nil => exact List.Perm.refl _
+  | cons j js ih =>
+    simp only [insertByVal]
+    split
+    · exact List.Perm.refl _
+    · exact (List.Perm.cons j ih).trans (List.Perm.swap i j js)
+
+theorem insertByVal_sorted (data : List Rat) (i : Nat) (l : List Nat)
+    (h : l.Pairwise (fun a b => data.getD a 0 ≤ data.getD b 0)) :
+    (insertByVal data i l).Pairwise (fun a b => data.getD a 0 ≤ data.getD b 0) := by
+  induction l with
+  | nil => simp [insertByVal]
+  | cons j js ih =>
+    simp only [insertByVal]
+    have hj := List.pairwise_cons.mp h
+    split
+    · rename_i hij
+      refine List.Pairwise.cons ?_ h
+      intro x hx
+      rcases List.mem_cons.mp hx with rfl | hx
+      · exact Rat.le_of_lt hij
+      · exact Rat.le_trans (Rat.le_of_lt hij) (hj.1 x hx)
+    · rename_i hij
+      refine List.Pairwise.cons ?_ (ih hj.2)
+      intro x hx
+      have := (insertByVal_perm data i js).mem_iff.mp hx
+      rcases List.mem_cons.mp this with rfl | hx'
+      · exact Rat.not_lt.mp hij
+      · exact hj.1 x hx'
+
+/-- `stable_argsort(data)[::-1]`: a permutation of all indices, values descending -/
+theorem maxToMin_spec (data : List Rat) :
+    (maxToMin data).Perm (List.range data.length) ∧
+    (maxToMin data).Pairwise (fun a b => data.getD b 0 ≤ data.getD a 0) := by
+  unfold maxToMin
+  have : ∀ (l acc : List Nat), acc.Pairwise (fun a b => data.getD a 0 ≤ data.getD b 0) →
+      (l.foldl (fun acc i => insertByVal data i acc) acc).Perm (l ++ acc) ∧
+      (l.foldl (fun acc i => insertByVal data i acc) acc).Pairwise (fun a b => data.getD a 0 ≤ data.getD b 0) := by
+    intro l
+    induction l with
+    | nil => intro acc h; exact ⟨List.Perm.refl _, h⟩
+    | cons x xs ih =>
+      intro acc h
+      simp only [List.foldl_cons]
+      obtain ⟨p, q⟩ := ih (insertByVal data x acc) (insertByVal_sorted data x acc h)
+      refine ⟨p.trans ?_, q⟩
+      have := insertByVal_perm data x acc
+      exact (List.Perm.append_left xs this).trans (by simp [List.perm_middle])
+  obtain ⟨p, q⟩ := this (List.range data.length) [] List.Pairwise.nil
+  refine ⟨(List.reverse_perm _).trans (by simpa using p), ?_⟩
+  rw [List.pairwise_reverse]
+  exact q
+
+/-- the sample set of a highest-density region, `max_to_min[:j]`, read back as intervals:
+* the reported runs cover exactly the `j` selected indices (in ascending order), are non-empty and maximal;
+* no sample outside the selection is higher than a sample inside;
+* the selection has no repeated index. -/
+theorem hdr_region (data : List Rat) (j : Nat) :
+    let order := maxToMin data
+    let ind := sortNat (order.take j)
+    runIndices (runsOf ind) = ind ∧ RunsSeparated (runsOf ind) ∧ ind.Perm (order.take j) ∧
+    (∀ a ∈ order.take j, ∀ b ∈ order.drop j, data.getD b 0 ≤ data.getD a 0) ∧
+    (order.take j ++ order.drop j).Perm (List.range data.length) := by
+  intro order ind
+  obtain ⟨hp, hs⟩ := maxToMin_spec data
+  obtain ⟨sp, ss⟩ := sortNat_spec (order.take j)
+  have hnd : order.Nodup := hp.nodup_iff.mpr List.nodup_range
+  have hnd' : ind.Nodup := sp.nodup_iff.mpr (List.Nodup.sublist (List.take_sublist j order) hnd)
+  obtain ⟨r1, r2, _⟩ := runsOf_spec ind (strictAsc_of_sorted_nodup ind ss hnd')
+  refine ⟨r1, r2, sp, ?_, by rw [List.take_append_drop]; exact hp⟩
+  intro a ha b hb
+  have : (order.take j ++ order.drop j).Pairwise (fun a b => data.getD b 0 ≤ data.getD a 0) := by
+    rw [List.take_append_drop]; exact hs
+  exact (List.pairwise_append.mp this).2.2 a ha b hb
+
+
+/-- a finished result row stems from the selection `max_to_min[:j]` of some `1 ≤ j < n` -/
+def RowFromSelection (data : List Rat) (bufSize : Nat) (row : List (Int × Int) × Rat) : Prop :=
+  ∃ j, 1 ≤ j ∧ j < data.length ∧ row.1 = hdrRow bufSize (sortNat ((maxToMin data).take j))
+
+theorem hdrServe_inv (P : List (Int × Int) × Rat → Prop) (bufSize total : Nat) (ind : List Nat) (topSum : Rat) (j : Nat)
+    (low fs dj : Rat) (st : HdrState)
+    (hrow : ∀ amp, P (hdrRow bufSize ind, amp))
+    (h : st.rows.length + st.open_.length = total ∧ ∀ row ∈ st.rows, P row) :
+    (hdrServe bufSize ind topSum j low fs dj st).rows.length + (hdrServe bufSize ind topSum j low fs dj st).open_.length = total ∧
+    ∀ row ∈ (hdrServe bufSize ind topSum j low fs dj st).rows, P row := by
+  unfold hdrServe
+  simp only []
+  split
+  · exact h
+  · constructor
+    · simp only [List.length_append, List.length_reverse, List.length_map, List.length_take, List.length_drop]
+      have := List.length_filter_le (fun f => decide (f ≤ fs)) st.open_
+      omega
+    · intro row hr
+      rcases List.mem_append.mp hr with hr | hr
+      · simp only [List.mem_reverse, List.mem_map] at hr
+        obtain ⟨f, _, rfl⟩ := hr
+        exact hrow _
+      · exact h.2 row hr
+
+theorem hdrStep_inv (data : List Rat) (areaTot : Rat) (upper : Bool) (bufSize total : Nat)
+    (st : HdrState) (j : Nat) (hj : 1 ≤ j ∧ j < data.length)
+    (h : st.rows.length + st.open_.length = total ∧ ∀ row ∈ st.rows, RowFromSelection data bufSize row) :
+    (hdrStep data (maxToMin data) areaTot upper bufSize st j).rows.length
+        + (hdrStep data (maxToMin data) areaTot upper bufSize st j).open_.length = total ∧
+    ∀ row ∈ (hdrStep data (maxToMin data) areaTot upper bufSize st j).rows, RowFromSelection data bufSize row := by
+  unfold hdrStep
+  split
+  · exact h
+  · simp only []
+    split
+    · exact h
+    · exact hdrServe_inv _ bufSize total _ _ j _ _ _ st (fun _ => ⟨j, hj.1, hj.2, rfl⟩) h
+
+
+/-- the result of `highest_density_region`: one row per desired fraction; every row is either the interval
+list of a selection `max_to_min[:j]` (described by `hdr_region`) or — for fractions not reached by any proper
+level set — the whole range `[0, n)` -/
+theorem hdr_rows (data fractions : List Rat) (upper : Bool) (bufSize : Nat) (rows : List (List (Int × Int) × Rat))
+    (h : highestDensityRegion data fractions upper bufSize = .ok rows) :
+    rows.length = fractions.length ∧
+    ∀ row ∈ rows, RowFromSelection data bufSize row ∨
+      row.1 = ((0 : Int), (data.length : Int)) :: List.replicate (bufSize - 1) ((0 : Int), (0 : Int)) := by
+  unfold highestDensityRegion at h
+  simp only [] at h
+  split at h
+  · simp at h
+  · simp only [Except.ok.injEq] at h
+    have key : ∀ (l : List Nat) (st : HdrState), (∀ j ∈ l, 1 ≤ j ∧ j < data.length) →
+        (st.rows.length + st.open_.length = fractions.length ∧ ∀ row ∈ st.rows, RowFromSelection data bufSize row) →
+        ((l.foldl (hdrStep data (maxToMin data) data.sum upper bufSize) st).rows.length
+          + (l.foldl (hdrStep data (maxToMin data) data.sum upper bufSize) st).open_.length = fractions.length ∧
+         ∀ row ∈ (l.foldl (hdrStep data (maxToMin data) data.sum upper bufSize) st).rows, RowFromSelection data bufSize row) := by
+      intro l
+      induction l with
+      | nil => intro st _ hst; exact hst
+      | cons j l ih =>
+        intro st hl hst
+        simp only [List.foldl_cons]
+        exact ih _ (fun x hx => hl x (by simp [hx])) (hdrStep_inv data data.sum upper bufSize _ st j (hl j (by simp)) hst)
+    have hmem : ∀ j ∈ (List.range data.length).drop 1, 1 ≤ j ∧ j < data.length := by
+      intro j hj
+      have h1 : j ∈ List.range data.length := List.mem_of_mem_drop hj
+      have h2 : j < data.length := List.mem_range.mp h1
+      refine ⟨?_, h2⟩
+      rw [List.range_eq_range', List.drop_range'] at hj
+      have := List.mem_range'_1.mp hj
+      omega
+    obtain ⟨k1, k2⟩ := key _ { lowest := none, open_ := fractions, rows := [] } hmem (by simp)
+    subst h
+    constructor
+    · simp only [List.length_append, List.length_reverse, List.length_map]; exact k1
+    · intro row hrow
+      rcases List.mem_append.mp hrow with hr | hr
+      · exact Or.inl (k2 row (List.mem_reverse.mp hr))
+      · simp only [List.mem_map] at hr
+        obtain ⟨f, _, rfl⟩ := hr
+        exact Or.inr rfl
+
+
 end Strax.Peaks
